@@ -5,5 +5,5 @@ cd "$(dirname "$0")/.."
 for d in seeded/*/; do
   sid=$(basename $d)
   prop=$(python3 -c "import json;print(json.load(open('$d/meta.json'))['property'])")
-  python3 tools/try_mutant.py $prop $d $sid 2>&1 | tail -3 | cut -c1-250
+  python3 tools/try_mutant.py $prop $(pwd)/${d%/} $sid 2>&1 | tail -3 | cut -c1-250
 done
